@@ -131,7 +131,11 @@ def run_config(chk, tier, cfgname):
         chk.inst("header-builder-has-no-drop", "slice::GcSliceWithHeaderBuilder", not a.get("drop_impl"),
                  detail="GcSliceWithHeaderBuilder has a Drop impl: it would destruct a header that was never written")
     il_writers = []
-    il = rules_builder._field_idx(prog, rules_builder.SB, "init_length")
+    try:
+        il = rules_builder._field_idx(prog, rules_builder.SB, "init_length")
+    except (IndexError, KeyError, TypeError):
+        chk.anchor(rules_builder.SB + ".init_length", False, "(the slice builder no longer records its initialised length in a field of its own)")
+        il = None
     for d_raw, key in prog.seed.items():
         b = prog.bodies[key]
         for bb in b["blocks"]:
